@@ -425,13 +425,30 @@ Proof. reflexivity. Qed.
 Definition Q2V (v : QV3) : V3 := (Q2R (qx v), Q2R (qy v), Q2R (qz v)).
 Ltac q2r := repeat (rewrite Q2R_plus || rewrite Q2R_mult || rewrite Q2R_opp || rewrite Q2R_minus);
             rewrite ?RMicromega.Q2R_0, ?RMicromega.Q2R_1.
+Definition Q2M (A : QM3) : M3 := (Q2V (fst (fst A)), Q2V (snd (fst A)), Q2V (snd A)).
+Ltac qopen := unfold Q2M, Q2V, qapply, qadd, qsub, qdot, qRx, qRy, qRz, qx, qy, qz; cbn [fst snd].
+Lemma qapply_sound A v : Q2V (qapply A v) = mapply (Q2M A) (Q2V v).
+Proof.
+  destruct A as [[[[a b] c] [[d e] f]] [[g h] i]], v as [[v1 v2] v3]. qopen; m3; q2r; reflexivity.
+Qed.
+Lemma qadd_sound a b : Q2V (qadd a b) = vadd (Q2V a) (Q2V b).
+Proof. destruct a as [[? ?] ?], b as [[? ?] ?]. qopen; v3; q2r; reflexivity. Qed.
+Lemma qsub_sound a b : Q2V (qsub a b) = vsub (Q2V a) (Q2V b).
+Proof. destruct a as [[? ?] ?], b as [[? ?] ?]. qopen; v3; q2r; reflexivity. Qed.
+Lemma qRx_sound c s : Q2M (qRx c s) = Rx (Q2R c) (Q2R s).
+Proof. qopen; unfold Rx; q2r; reflexivity. Qed.
+Lemma qRy_sound c s : Q2M (qRy c s) = Ry (Q2R c) (Q2R s).
+Proof. qopen; unfold Ry; q2r; reflexivity. Qed.
+Lemma qRz_sound c s : Q2M (qRz c s) = Rz (Q2R c) (Q2R s).
+Proof. qopen; unfold Rz; q2r; reflexivity. Qed.
+Lemma qseq_apply_sound m X Y Z p : Q2V (qseq_apply m X Y Z p) = seq_apply m (Q2M X) (Q2M Y) (Q2M Z) (Q2V p).
+Proof. destruct m; unfold qseq_apply, seq_apply; rewrite !qapply_sound; reflexivity. Qed.
 Lemma qrotate_sound m cx sx cy sy cz sz p o f :
   Q2V (qrotate m ((cx, sx), (cy, sy), (cz, sz)) p o f)
   = rotate_with m (Rx (Q2R cx) (Q2R sx)) (Ry (Q2R cy) (Q2R sy)) (Rz (Q2R cz) (Q2R sz)) (Q2V p) (Q2V o) (Q2V f).
 Proof.
-  destruct p as [[p1 p2] p3], o as [[o1 o2] o3], f as [[f1 f2] f3].
-  destruct m; unfold Q2V, qrotate, rotate_with, qseq_apply, seq_apply, qapply, qadd, qsub, qdot, qRx, qRy, qRz, qx, qy, qz;
-    cbn [fst snd]; m3; q2r; teq; ring.
+  unfold qrotate, rotate_with; cbn [fst snd].
+  rewrite !qadd_sound, qseq_apply_sound, qsub_sound, qRx_sound, qRy_sound, qRz_sound. reflexivity.
 Qed.
 Lemma qnp_rotate_points_sound m (zero : bool) cx sx cy sy cz sz p o f :
   (zero = true -> Q2R cx = 1 /\ Q2R sx = 0 /\ Q2R cy = 1 /\ Q2R sy = 0 /\ Q2R cz = 1 /\ Q2R sz = 0) ->
